@@ -72,8 +72,38 @@ def opVerify (a : List String) : String :=
     | _, _, _ => "bad-op"
   | _ => "bad-op"
 
+/-- `sig.decode <alg> <hex>`: `ecdsa.DecodeSignature` on the algorithm's curve -/
+def opDecode (a : List String) : String :=
+  match a with
+  | [alg, sg] =>
+    (match alg.toInt?, unhex sg with
+     | some al, some sig =>
+       (match ecdsaCurve al with
+        | some ci => (match decodeSig ci.curve sig with
+            | some (r, s) => s!"ok {r} {s}"
+            | none => "err")
+        | none => "bad-op")
+     | _, _ => "bad-op")
+  | _ => "bad-op"
+
+/-- `sig.encode <alg> <r> <s>` (decimal): `ecdsa.EncodeSignature` -/
+def opEncode (a : List String) : String :=
+  match a with
+  | [alg, r, s] =>
+    (match alg.toInt?, r.toNat?, s.toNat? with
+     | some al, some rn, some sn =>
+       (match ecdsaCurve al with
+        | some ci => (match encodeSig ci.curve rn sn with
+            | some b => "ok " ++ hex b
+            | none => "err")
+        | none => "bad-op")
+     | _, _, _ => "bad-op")
+  | _ => "bad-op"
+
 def dispatch (op : String) (args : List String) : Option String :=
   match op with
+  | "sig.decode" => some (opDecode args)
+  | "sig.encode" => some (opEncode args)
   | "sig.topublic" => some (opTopublic args)
   | "sig.compress" => some (opCompress args)
   | "sig.verifierkey" => some (opVerifierKey args)
